@@ -147,7 +147,10 @@ impl ConstraintSatisfactionSolver {
 pub uninterp spec fn nogood_propagator() -> PropagatorId;
 // a logged inference `premises -> propagated` follows from the constraint of its tag
 pub open spec fn inference_ok(e: (Tag, Seq<Predicate>, Option<Predicate>)) -> bool {
-    e.2 matches Some(q) ==> forall|a: Asg| #![trigger (tag_model(e.0))(a)] (tag_model(e.0))(a) && seq_holds(e.1, a) ==> pred_holds(q, a)
+    match e.2 {
+        Some(q) => forall|a: Asg| #![trigger (tag_model(e.0))(a)] (tag_model(e.0))(a) && seq_holds(e.1, a) ==> pred_holds(q, a),
+        None => forall|a: Asg| #![trigger (tag_model(e.0))(a)] (tag_model(e.0))(a) ==> !seq_holds(e.1, a),
+    }
 }
 pub open spec fn entry_for(state: int, pred: Predicate) -> ConstraintProgrammingTrailEntry { entry_of(state, tp_of(state, pred)->Some_0 as int) }
 pub open spec fn on_trail(state: int, pred: Predicate) -> bool { tp_of(state, pred) is Some && entry_for(state, pred).predicate == pred }
